@@ -6,6 +6,7 @@ sys.path.insert(0, os.path.dirname(os.path.dirname(os.path.abspath(__file__))))
 from tlsverif.normalize import local_names
 root = os.path.join(os.environ.get("TLSVERIF_REPO", "/repo"), "tlslite")
 out = {}
+srcs = {}
 for dp, dn, fns in os.walk(root):
     dn.sort()
     for fn in sorted(fns):
@@ -23,7 +24,11 @@ for dp, dn, fns in os.walk(root):
                 for c in n.body:
                     if isinstance(c, ast.FunctionDef):
                         out["%s:%s.%s" % (rel, n.name, c.name)] = sorted(set(out.get("%s:%s.%s" % (rel, n.name, c.name), [])) | set(local_names(c)))
+                        srcs.setdefault("%s:%s.%s" % (rel, n.name, c.name), ast.unparse(c))
             elif isinstance(n, ast.FunctionDef):
                 out["%s:%s" % (rel, n.name)] = local_names(n)
+                srcs.setdefault("%s:%s" % (rel, n.name), ast.unparse(n))
 json.dump(out, open(os.path.join(os.path.dirname(os.path.dirname(os.path.abspath(__file__))), "tlsverif", "baseline_functions.json"), "w"), indent=0, sort_keys=True)
+# the functions' source as confirmed: lets the normaliser recognise a pure renaming of locals
+json.dump(srcs, open(os.path.join(os.path.dirname(os.path.dirname(os.path.abspath(__file__))), "tlsverif", "baseline_sources.json"), "w"), indent=0, sort_keys=True)
 print(len(out), "functions")
